@@ -15,7 +15,7 @@ cd /verif
 VERIF_REPO="$W/repo" VERIF_SCRATCH="$W/scratch" VERIF_EVIDENCE_DIR="$W/evidence" VERIF_REPLAY_DIR="$W/replays" \
   ./verifctl check "$PROP" --tier "$TIER" > "$W/out" 2>&1
 rc=$?
-grep -E "^VIOLATION|^KNOWN-FINDING|INTERNAL|oracle=" "$W/out" | head -8
+cp "$W/out" "/var/tmp/mutest-last-$PROP.out" 2>/dev/null; grep -E -A3 "^VIOLATION|^KNOWN-FINDING|INTERNAL|oracle=" "$W/out" | cut -c1-600 | head -24
 tail -1 "$W/out"
 echo "mutest: $(basename $P) $PROP rc=$rc"
 exit $rc
